@@ -236,6 +236,14 @@ func indexTerms(ts []*Term, max int) []*Term {
 			seenT[t.id] = true
 			out = append(out, t)
 		}
+		if t.Op == "select" && !t.open && len(t.Args) == 2 && t.Args[0].Op == "select" && (t.Args[1].Sort == SStr || t.Args[1].Sort == SRef) {
+			// key of a map read: natural instance for quantifiers over map keys
+			k := t.Args[1]
+			if !seenT[k.id] && len(out) < 4*max {
+				seenT[k.id] = true
+				out = append(out, k)
+			}
+		}
 		if t.Op == "ctor" && t.Name == "pe" && !t.open {
 			x := t.Args[1]
 			if x.Op == "+" {
